@@ -274,6 +274,149 @@ def r2_3(ctx):
     ctx.count('jump_exits', n)
 
 
+def _bit_test(f, c):
+    """(lvalue text, mask) when c is `X & CONST`"""
+    c = cu.strip_casts(f, c)
+    if c is None or c['k'] != 'bin' or c['op'] != '&':
+        return None
+    m = cu.const_of(cu.strip_casts(f, f.kid(c, 1)))
+    if m is None:
+        return None
+    return canon(f, f.kid(c, 0)), m
+
+
+def r2_4(ctx):
+    """what a string's parser decides about the whole expression reaches the scanner: the
+    scanner rebuilds the flags it hands to the regexp VM from the string's flags
+    (`if (STRING_IS_DOT_ALL(s)) flags |= RE_FLAGS_DOT_ALL`), so for every such pair whose
+    regexp flag a parser can put on the AST, yr_parser_reduce_string_declaration sets the
+    string flag on every path that ran that parser - unconditionally, or under a test of the
+    AST flag.  Hex strings are DOT_ALL by construction (`??` and jumps match every byte);
+    if the string flag is lost, `{ 11 ( 22 | 33 ) ?? 44 }` stops matching when the wildcard
+    byte is a newline."""
+    from .. import paths
+    prog = ctx.prog
+    sc = [g for g in prog.fns() if g.file == 'libyara/scan.c' or ctx.fixture]
+    pairs = {}
+    for g in sc:
+        for n in g.all_nodes():
+            if n['k'] != 'if':
+                continue
+            bt = _bit_test(g, g.kid(n, 0))
+            if bt is None or not bt[0].endswith('->flags'):
+                continue
+            then = g.kids(n)[1] if len(g.kids(n)) > 1 else None
+            for x in (g.walk(then) if then is not None else ()):
+                if x['k'] == 'bin' and x['op'] == '|=':
+                    r = cu.strip_casts(g, g.kid(x, 1))
+                    if r is not None and (r.get('mn') or '').startswith('RE_FLAGS_'):
+                        pairs[cu.const_of(r)] = (bt[1], r['mn'])
+    ctx.require(len(pairs) >= 2 or ctx.fixture, 'scanner-side flag reconstruction not found')
+    # which parser entry can put which RE_FLAGS_* on the AST
+    red = prog.fn('yr_parser_reduce_string_declaration', 'libyara/parser.c')
+    ctx.require(red is not None or ctx.fixture, 'yr_parser_reduce_string_declaration not found')
+    if red is None:
+        return 0
+    from ..callgraph import CallGraph
+    cg = CallGraph(prog)
+    entries = {}
+    for c in red.calls():
+        cal = c.get('callee') or ''
+        if not cal.startswith('yr_re_parse'):
+            continue
+        g0 = prog.fn(cal)
+        if g0 is None:
+            continue
+        sets = set()
+        for h in cg.reachable([g0]):
+            for n in h.all_nodes():
+                if n['k'] == 'bin' and n['op'] == '|=':
+                    l = cu.strip_casts(h, h.kid(n, 0))
+                    r = cu.strip_casts(h, h.kid(n, 1))
+                    if l is not None and l['k'] == 'member' and l['fld'] == 'flags' and \
+                            l.get('rec') in ('RE_AST', '_RE_AST') and r is not None and cu.const_of(r) in pairs:
+                        sets.add(cu.const_of(r))
+        entries[c['i']] = (cal, sets)
+    ctx.require(entries or ctx.fixture, 'no call of a string parser in yr_parser_reduce_string_declaration')
+    sinks = [c for c in red.calls() if c.get('callee') == '_yr_parser_write_string']
+    ctx.require(sinks or ctx.fixture, 'no call of _yr_parser_write_string')
+    missing = {}
+
+    def bits_after(facts, X, op, K):
+        out = set()
+        for x in facts:
+            if x[0] == 'bit' and x[1] == X:
+                if op == '|=' and K is not None:
+                    if x[2] & K == 0:
+                        out.add(x)
+                    elif x[2] & K == x[2]:
+                        out.add(('bit', X, x[2], True))
+                    continue
+                if op == '&=' and K is not None:
+                    if x[2] & ~K == 0:
+                        out.add(x)
+                    continue
+                continue
+            out.add(x)
+        return out
+
+    def step(n, facts):
+        if n['k'] == 'bin' and n['op'].endswith('=') and n['op'] not in ('==', '!=', '<=', '>='):
+            X = canon(red, red.kid(n, 0))
+            K = cu.const_of(cu.strip_casts(red, red.kid(n, 1)))
+            facts = frozenset(bits_after(facts, X, n['op'], K))
+            if n['op'] == '|=' and K is not None and X.endswith('flags'):
+                for rv, (sv, rn) in pairs.items():
+                    if K & sv == sv and 're_ast' not in X and 'RE_AST' not in (cu.strip_casts(red, red.kid(n, 0)).get('rec') or ''):
+                        facts = facts | {('set', rv)}
+        if n['k'] == 'call' and n['i'] in entries:
+            facts = frozenset(x for x in facts if x[0] != 'ran') | {('ran', n['i'])}
+        if n['k'] == 'call' and n.get('callee') == '_yr_parser_write_string':
+            ran = [x[1] for x in facts if x[0] == 'ran']
+            for e in ran:
+                for rv in entries[e][1]:
+                    if ('set', rv) not in facts and ('noast', rv) not in facts:
+                        missing.setdefault((entries[e][0], rv), n)
+        if n['k'] == 'ret':
+            return None
+        return facts
+
+    def edge(b, term, cond, idx, succ, facts):
+        pol = paths.branch_polarity(red, term, idx)
+        if pol is None or cond is None:
+            return facts
+        c, p2 = paths.normalise_cond(red, cond, pol)
+        bt = _bit_test(red, c) if c is not None else None
+        if bt is None:
+            return facts
+        X, m = bt
+        for x in facts:
+            if x[0] == 'bit' and x[1] == X and x[2] == m and x[3] != p2:
+                return None                     # the same bit was found the other way round
+        facts = frozenset(facts) | {('bit', X, m, p2)}
+        if not p2 and m in pairs and ('re_ast' in X or 'ast' in X.lower()):
+            facts = facts | {('noast', m)}
+        return facts
+    try:
+        paths.explore(red, set(), step, edge, max_states=200000)
+    except paths.Budget:
+        ctx.require(False, 'R2.4: state budget exceeded')
+    n = 0
+    for e, (cal, sets) in sorted(entries.items()):
+        for rv in sorted(sets):
+            n += 1
+            sv, rn = pairs[rv]
+            bad = missing.get((cal, rv))
+            ctx.ob('R2.4', '%s:%s:reaches-the-string-flags' % (cal, rn), bad is None,
+                   red.loc(bad) if bad is not None else red.loc(red.node(e)),
+                   'on every path through %s the string flag the scanner turns into %s is set, or the AST '
+                   'was found not to carry it' % (cal, rn) if bad is None else
+                   '%s can put %s on the AST, the scanner rebuilds it from the string flag 0x%x, and a path '
+                   'from that parser to the writing of the string sets neither: the VM runs the string '
+                   'without %s' % (cal, rn, sv, rn))
+    return n
+
+
 def f_kid(f, n, i):
     return f.kid(n, i)
 
@@ -291,3 +434,5 @@ def run(ctx):
     ctx.floor('R2.2', 9)
     r2_3(ctx)
     ctx.floor('R2.3', 2)
+    r2_4(ctx)
+    ctx.floor('R2.4', 2)
